@@ -44,8 +44,16 @@ fn main() {
             let stdin = std::io::stdin();
             let out = std::io::stdout();
             let mut out = std::io::BufWriter::new(out.lock());
-            for line in stdin.lock().lines() {
+            // VERIF_PROGRESS=<file>: the index of the operation being executed is kept in that file, so that the driver
+            // script can name the operation on which the process died (only used after a first run has died)
+            let mut progress = std::env::var("VERIF_PROGRESS").ok().map(|p| std::fs::File::create(p).unwrap());
+            for (idx, line) in stdin.lock().lines().enumerate() {
                 let line = line.unwrap();
+                if let Some(f) = progress.as_mut() {
+                    use std::io::{Seek, SeekFrom};
+                    f.seek(SeekFrom::Start(0)).unwrap();
+                    write!(f, "{:012}", idx).unwrap();
+                }
                 let res = ops::exec(&line);
                 writeln!(out, "{}", res).unwrap();
                 if let Some(f) = oracle_out.as_mut() {
